@@ -335,6 +335,33 @@ def _fn_init(body, name):
     return None
 
 
+def check_mixed_entities(chk, it):
+    """R06.4/R06.5 on modules that both import and define tables / globals: defined entity k lives at module index
+    (number of imports + k); imported state is never allocated, freed or re-initialised by the instance"""
+    site = 'wasmCWriteInitTables:mixed'
+    mk = lambda: M.build(it, types=[([], [])], func_imports=[('env', 'imp0', 0)], functions=[0], tables=[(3, 5, False), (1, 2, False)],
+                         table_imports=[('env', 'tbl', 2, 9, False)], memories=[(1, 4, False)],
+                         globals_=[('i32', True, M.i32_const(11)), ('i64', False, M.i64_const(12))], global_imports=[('env', 'gi', 'i32', False)],
+                         element_segments=[(0, M.i32_const(0), [1])], exports=[])
+    fns = split_functions(inits_text(it, mk))
+    body = fns.get('modInitTables', '')
+    allocs = re.findall(r'wasmTableAllocate\(([^,]+),\s*(\d+),\s*(\d+)\)', body)
+    chk.expect([(a.strip(), int(b), int(c)) for a, b, c in allocs] == [('&i->t1', 3, 5), ('&i->t2', 1, 2)], 'R06.4', 'mixed-tables:allocate',
+               'module importing 1 table and defining 2: InitTables allocates %r; expected exactly the defined tables t1 (3,5) and t2 (1,2) - '
+               'allocating the imported table replaces the embedder\'s table, and an unallocated defined table has no entries' % (allocs,), site)
+    chk.expect('env__tbl' not in ''.join(a for a, _, _ in allocs), 'R06.4', 'mixed-tables:import-untouched',
+               'InitTables allocates the imported table: %r' % (allocs,), site)
+    free = fns.get('modFreeInstance', '')
+    frees = re.findall(r'wasmTableFree\(([^)]+)\)', free)
+    chk.expect([f.strip() for f in frees] == ['&i->t1', '&i->t2'], 'R06.4', 'mixed-tables:free',
+               'FreeInstance frees tables %r; expected exactly the defined tables &i->t1, &i->t2' % (frees,), 'wasmCWriteFreeTables:mixed')
+    gbody = fns.get('modInitGlobals', '')
+    gl = re.findall(r'(i->\w+)\s*=\s*([^;]+);', gbody)
+    chk.expect([(a, b.strip()) for a, b in gl] == [('i->g1', '11U'), ('i->g2', 'W2C2_LL(12U)')], 'R06.5', 'mixed-globals:init',
+               'module importing 1 global and defining 2: InitGlobals assigns %r; expected g1 = 11U and g2 = W2C2_LL(12U) (defined globals are '
+               'numbered after the imports; the imported global belongs to the embedder)' % (gl,), 'wasmCWriteInitGlobals:mixed')
+
+
 def run(chk):
     chk.explanation = (
         'The module-level emitters are partially evaluated on %d concrete module shapes (defined/imported/no memory x table, globals, '
@@ -351,6 +378,7 @@ def run(chk):
     check_members_and_imports(chk, it)
     check_export_params(chk, it)
     check_data_modes(chk, tus, 'R06.3')
+    check_mixed_entities(chk, it)
     chk.floor('R06.1', 100)
     chk.floor('R06.2', 100)
     chk.floor('R06.3', 60)
